@@ -206,7 +206,8 @@ def run_case(case, g, tier, res):
                 picks = [r.index for r in rng.calls]
                 targets = [float(c.eval_in(mv, t)) for (_, t, _) in obs.draws]
                 vals = gendrive.role_values(c, mv, roles)
-                return (f"C18:{label}", f"{label} [{skel['name']}: {text}] picks={picks} targets={targets}",
+                sig = f"C18:{label}" + (f":{skel['name']}" if label.startswith("a later generation in the same process") else "")
+                return (sig, f"{label} [{skel['name']}: {text}] picks={picks} targets={targets}",
                         {"kind": "ag", "text": text, "weights": vals, "picks": picks, "targets": targets, "label": label})
             return build
 
@@ -228,17 +229,28 @@ def run_case(case, g, tier, res):
         picks = [r.index for r in rng.calls]
         draws = [t for (_, t, _) in obs.draws]
         rng2 = FixedRng(picks)
-        gen.DRAW_FN[0] = gen.scripted_draw(draws)
+        ndraw = [0]
+        it_draws = iter(draws)
+
+        def counted_draw(dist, r):
+            ndraw[0] += 1
+            return next(it_draws)
+
+        gen.DRAW_FN[0] = counted_draw
         ag2 = g.AtomGraph(sag, rng=rng2)
         try:
             ag2.generate()
             smi2 = Chem.MolToSmiles(ag2.to_mol())
-        except gendrive.ReplayDone:
+        except (gendrive.ReplayDone, StopIteration):
             smi2 = None
         except Exception as e:
             core.reraise_if_harness(e)
             smi2 = None
         c.prove(smi2 == smi or smi is None, "equal streams give equal molecules", detail("a second run with the same picks and draws gives another molecule"))
+        # the second generation consumes the generator exactly like the first: as many target masses drawn, as many picks made
+        # (otherwise equally seeded generators drift apart between the first and a later generation of the same process)
+        c.prove(ndraw[0] == len(draws) and rng2.k == len(picks), "a later generation consumes the generator like the first",
+                detail("a later generation in the same process draws another number of values from the generator than the first"))
         return smi
 
     explore_case(res, h, tier, on_path=on_path, budget_s=900)
@@ -251,6 +263,27 @@ def replay(rp, gb):
     gen.install_observers(gb, obs)
     gen.DRAW_FN[0] = gen.scripted_draw(rp["targets"])
     sag = mol.gen_stochastic_atom_graph(True)
+    if rp["label"].startswith("a later generation in the same process draws"):
+        # real generators, equal fresh seeds, two generations in one process: they must agree
+        import numpy as np
+
+        gen.restore_draws(gb)
+        import re as _re
+
+        diff = []
+        for seed in range(12):
+            # the weights as written (the model's may be extreme), ten times longer chains (more picks to compare) and a
+            # distribution no earlier generation of this process has used
+            t10 = _re.sub(r"schulz_zimm\((\d+),\s*(\d+)\)", lambda m: f"schulz_zimm({int(m.group(1)) * 10 + seed}, {int(m.group(2)) * 10})", rp["text"])
+            sag0 = gb.Molecule(t10).gen_stochastic_atom_graph(True)
+            outs = []
+            for _ in range(2):
+                a = gb.AtomGraph(sag0, rng=np.random.default_rng(seed))
+                a.generate()
+                outs.append(Chem.MolToSmiles(a.to_mol()))
+            if outs[0] != outs[1]:
+                diff.append((seed, outs))
+        return bool(diff), f"two generations with equal fresh seeds in one process differ for {len(diff)} of 12 seeds: {diff[:1]}"
     rng = gendrive.ScriptedRng(rp["picks"])
     ag = gb.AtomGraph(sag, rng=rng)
     P = _CP()
